@@ -35,9 +35,31 @@ def use_repo_on_syspath():
 
 
 class _Rewriter(ast.NodeTransformer):
-    def __init__(self, div, ifconv):
+    def __init__(self, div, ifconv, setorder=False):
         self.div = div
         self.ifconv = ifconv
+        self.setorder = setorder
+
+    # set-order abstraction: every set built by the module (set(...) call, set display, set comprehension) becomes __symset(...),
+    # a set whose ITERATION ORDER is an arbitrary (solver-chosen) permutation - models PYTHONHASHSEED for sets of str
+    def visit_Call(self, node):
+        self.generic_visit(node)
+        if self.setorder and isinstance(node.func, ast.Name) and node.func.id == 'set':
+            return ast.copy_location(ast.Call(func=ast.Name('__symset', ast.Load()), args=node.args, keywords=node.keywords), node)
+        return node
+
+    def visit_SetComp(self, node):
+        self.generic_visit(node)
+        if not self.setorder:
+            return node
+        gen = ast.GeneratorExp(elt=node.elt, generators=node.generators)
+        return ast.copy_location(ast.Call(func=ast.Name('__symset', ast.Load()), args=[gen], keywords=[]), node)
+
+    def visit_Set(self, node):
+        self.generic_visit(node)
+        if not self.setorder:
+            return node
+        return ast.copy_location(ast.Call(func=ast.Name('__symset', ast.Load()), args=[ast.List(elts=node.elts, ctx=ast.Load())], keywords=[]), node)
 
     def visit_BinOp(self, node):
         self.generic_visit(node)
@@ -128,7 +150,7 @@ def record_functions(relpath, names=None):
     return out
 
 
-def load(relpath, shims=None, div=False, ifconv=False, only=None, extra=None, modname=None, record=None):
+def load(relpath, shims=None, div=False, ifconv=False, only=None, extra=None, modname=None, record=None, setorder=False):
     path = repo_path(relpath)
     src = open(path).read()
     tree = ast.parse(src)
@@ -144,8 +166,8 @@ def load(relpath, shims=None, div=False, ifconv=False, only=None, extra=None, mo
                     keep.append(n)
         body = keep
     tree.body = body
-    if div or ifconv:
-        tree = _Rewriter(div, ifconv).visit(tree)
+    if div or ifconv or setorder:
+        tree = _Rewriter(div, ifconv, setorder).visit(tree)
     tree = ast.fix_missing_locations(tree)
     shims = dict(shims or {})
     saved = {k: sys.modules.get(k) for k in shims}
